@@ -537,19 +537,27 @@ theorem lnewchar_l2 (crc : BitVec 8) (line : List Byte) (cap : Nat) (c : Byte) :
     lnewchar ⟨.l2, crc, line, cap⟩ c =
       if c = legStubStart then lputchar ⟨.l2, crc, line, cap⟩ legStart
       else if c = legStubStub then lputchar ⟨.l2, crc, line, cap⟩ legStub
-      else (⟨.l0, crc, line, cap⟩, LDATA_ERROR) := by
+      else if c = legStart then (⟨.l0, crc, line, cap⟩, LDATA_ERROR)
+      else (⟨.l3, crc, line, cap⟩, LDATA_ERROR) := by
   simp [lnewchar]
+
+/-- hunt state: everything but the marker is skipped; the marker primes the receiver -/
+theorem lnewchar_l3 (crc : BitVec 8) (line : List Byte) (cap : Nat) (c : Byte) :
+    lnewchar ⟨.l3, crc, line, cap⟩ c =
+      if c = legStart then (⟨.l1, 0xFF#8, [], cap⟩, CONTINUE)
+      else (⟨.l3, crc, line, cap⟩, CONTINUE) := by
+  by_cases hc : c = legStart <;> simp [lnewchar, hc]
 
 def LLineOK (r : LRecv) : Prop := r.line.length ≤ r.cap - 1
 
 theorem lnewchar_cap (r : LRecv) (c : Byte) : (lnewchar r c).1.cap = r.cap := by
   obtain ⟨st, crc, line, cap⟩ := r
-  cases st <;> simp only [lnewchar_l0, lnewchar_l1, lnewchar_l2, lputchar] <;> (repeat' split) <;> simp
+  cases st <;> simp only [lnewchar_l0, lnewchar_l1, lnewchar_l2, lnewchar_l3, lputchar] <;> (repeat' split) <;> simp
 
 theorem lnewchar_lineOK (r : LRecv) (c : Byte) (h : LLineOK r) : LLineOK (lnewchar r c).1 := by
   obtain ⟨st, crc, line, cap⟩ := r
   simp only [LLineOK] at h
-  cases st <;> simp only [lnewchar_l0, lnewchar_l1, lnewchar_l2, lputchar, LLineOK] <;>
+  cases st <;> simp only [lnewchar_l0, lnewchar_l1, lnewchar_l2, lnewchar_l3, lputchar, LLineOK] <;>
     (repeat' split) <;> simp_all <;> omega
 
 theorem lfeed_lineOK (r : LRecv) (bs : List Byte) (h : LLineOK r) : LLineOK (lfeed r bs).1 := by
@@ -610,8 +618,9 @@ theorem lframe_tail (p : List Byte) (crc : BitVec 8) (cap : Nat) (hcap : p.lengt
       exact strmStep_self _
     simp [hcrc, NEWPACKAGE]
 
-/-- a legacy frame fed to a receiver in state 0 or primed (l1, empty, FF) -/
-def LReady (r : LRecv) : Prop := r.state = .l0 ∨ (r.state = .l1 ∧ r.line = [] ∧ r.crc = 0xFF#8)
+/-- a legacy frame fed to a receiver in state 0, hunting (state 3), or primed (l1, empty, FF) -/
+def LReady (r : LRecv) : Prop :=
+  (r.state = .l0 ∨ r.state = .l3) ∨ (r.state = .l1 ∧ r.line = [] ∧ r.crc = 0xFF#8)
 
 theorem lframe_from_ready (r : LRecv) (hr : LReady r) (p : List Byte) (hcap : p.length + 2 ≤ r.cap) :
     ldelivered r (encodeLeg p) = [p] ∧ LReady (lfeed r (encodeLeg p)).1 ∧
@@ -619,12 +628,13 @@ theorem lframe_from_ready (r : LRecv) (hr : LReady r) (p : List Byte) (hcap : p.
   obtain ⟨st, crc, line, cap⟩ := r
   obtain ⟨t1, t2, _, t4⟩ := lframe_tail p 0xFF#8 cap hcap
   have hstep : lnewchar ⟨st, crc, line, cap⟩ legStart = (⟨.l1, 0xFF#8, [], cap⟩, CONTINUE) := by
-    rcases hr with hr | ⟨h1, h2, h3⟩
+    rcases hr with (hr | hr) | ⟨h1, h2, h3⟩
     · simp only at hr; subst hr; rw [lnewchar_l0, lnewchar_l1]; simp
+    · simp only at hr; subst hr; rw [lnewchar_l3]; simp
     · simp only at h1 h2 h3; subst h1; subst h2; subst h3; rw [lnewchar_l1]; simp
   rw [encodeLeg_eq]
   simp only [ldelivered, lfeed, hstep]
-  refine ⟨?_, Or.inl t1, t2⟩
+  refine ⟨?_, Or.inl (Or.inl t1), t2⟩
   simpa [CONTINUE, NEWPACKAGE] using t4 rfl
 
 theorem lframes_from_ready (r : LRecv) (hr : LReady r) (ps : List (List Byte))
@@ -644,7 +654,7 @@ def LGood (r : LRecv) : Prop := r.line = [] → r.crc = 0xFF#8
 theorem lnewchar_good (r : LRecv) (c : Byte) (h : LGood r) : LGood (lnewchar r c).1 := by
   obtain ⟨st, crc, line, cap⟩ := r
   simp only [LGood] at h
-  cases st <;> simp only [lnewchar_l0, lnewchar_l1, lnewchar_l2, lputchar, LGood] <;>
+  cases st <;> simp only [lnewchar_l0, lnewchar_l1, lnewchar_l2, lnewchar_l3, lputchar, LGood] <;>
     (repeat' split) <;> simp_all
 
 theorem lfeed_good (r : LRecv) (bs : List Byte) (h : LGood r) : LGood (lfeed r bs).1 := by
@@ -665,7 +675,8 @@ theorem lready_after_marker (r : LRecv) (h : LGood r) : LReady (lnewchar r legSt
     · subst hl; simp [LReady, h rfl]
     · have : line.isEmpty = false := by simpa using hl
       simp only [this, if_true, Bool.false_eq_true, if_false]
-      split <;> exact Or.inl rfl
+      split <;> exact Or.inl (Or.inl rfl)
   · rw [lnewchar_l2]; simp [e1, e2, LReady]
+  · rw [lnewchar_l3]; simp [LReady]
 
 end Igris.Gstuff
